@@ -60,3 +60,10 @@ Proof. induction h as [|a h IH]; intro p; [reflexivity|]. unfold layers_history 
 Theorem layers_history_independent h labelled p :
   snd (run_layers labelled (layers_history h p)) = if sample_layers p then labelled + 2 else 1.
 Proof. unfold run_layers. rewrite layers_history_flag. destruct (sample_layers p); reflexivity. Qed.
+
+Lemma analog_history_num_traj h : forall p, num_traj (analog_history h p) = num_traj p.
+Proof. induction h as [|[s b] h IH]; intro p; [reflexivity|]. unfold analog_history in *. cbn [fold_left]. rewrite IH. reflexivity. Qed.
+(* a run after any history of runs — any back-ends, noisy or not — executes what a fresh object would *)
+Theorem analog_history_independent h s noisy p :
+  snd (run_analog s noisy (analog_history h p)) = snd (run_analog s noisy p).
+Proof. unfold run_analog. cbn [snd]. rewrite analog_history_num_traj. reflexivity. Qed.
